@@ -210,7 +210,11 @@ func checkMain(args []string) int {
 					conf = "native replay did not reproduce (got " + out.Outcome + ")"
 				}
 			}
-			if conf != "native" {
+			if strings.HasPrefix(conf, "native replay did not reproduce") {
+				// the harness is natively replayable and the real code does not show the
+				// violation: the encoding or a model is wrong, not the code - no verdict
+				conf = "UNCONFIRMED: " + conf
+			} else if conf != "native" {
 				// concrete re-execution in the engine with the model's values and choices
 				ok, why := gosym.ConcreteReplay(p, fn, cfg, v)
 				if ok {
